@@ -16,16 +16,33 @@ theorem mem_zip_fst {α β : Type} {a : α × β} : ∀ {xs : List α} {ys : Lis
     · simp
     · simp [mem_zip_fst h]
 
-/-- the members of a sorted zip are (value, pre-hash) pairs of members -/
-theorem sorted_members {xs : List PyVal} {cps : List Pre} {sx : List (PyVal × Pre)}
-    (hpx : preList xs = .ok cps) (hsx : pySorted (fun a b : PyVal × Pre => pyLt a.1 b.1) (xs.zip cps) = .ok sx) :
-    (∀ a ∈ sx, PreOf a ∧ a.1 ∈ xs) ∧ (sx.map (·.1)).Perm xs := by
-  obtain ⟨z1, z2, _⟩ := zip_preOf hpx
-  have hperm := pySorted_perm _ _ _ hsx
-  refine ⟨fun a ha => ⟨z1 a (hperm.subset ha), mem_zip_fst (hperm.subset ha)⟩, ?_⟩
-  have := hperm.map (·.1)
-  rw [z2] at this
-  exact this
+theorem Rel2.map_self {β γ : Type} (g : β → γ) : ∀ (bs : List β), Rel2 (fun b d => g b = d) bs (bs.map g)
+  | [] => by simp [Rel2]
+  | b :: bs => by simp only [List.map_cons, Rel2]; exact ⟨trivial, Rel2.map_self g bs⟩
+
+theorem Rel2.to_map_eq {β γ : Type} {g : β → γ} : ∀ {bs : List β} {ds : List γ}, Rel2 (fun b d => g b = d) bs ds →
+    bs.map g = ds
+  | [], [], _ => rfl
+  | [], _ :: _, h => by simp [Rel2] at h
+  | _ :: _, [], h => by simp [Rel2] at h
+  | b :: bs, d :: ds, h => by
+    simp only [Rel2] at h
+    simp [h.1, Rel2.to_map_eq h.2]
+
+theorem inputsList_sub_of_mem (H : Bytes → Bytes) : ∀ {ps qs : List Pre}, (∀ p ∈ ps, p ∈ qs) →
+    ∀ x ∈ Pre.inputsList H ps, x ∈ Pre.inputsList H qs
+  | [], _, _, x, hx => by simp [Pre.inputsList] at hx
+  | p :: ps, qs, hsub, x, hx => by
+    simp only [Pre.inputsList, List.mem_append] at hx
+    rcases hx with hx | hx
+    · exact inputsList_mem_of_mem H (hsub p (by simp)) x hx
+    · exact inputsList_sub_of_mem H (fun q hq => hsub q (by simp [hq])) x hx
+
+/-- two lists with the same multiset of images can be matched element by element -/
+theorem perm_map_lift {α β γ : Type} {f : α → γ} {g : β → γ} {as : List α} {bs : List β}
+    (h : (as.map f).Perm (bs.map g)) : ∃ bs' : List β, bs'.Perm bs ∧ as.map f = bs'.map g := by
+  obtain ⟨bs', h1, h2⟩ := Rel2.perm_right h.symm (Rel2.map_self g bs)
+  exact ⟨bs', h1.symm, (Rel2.to_map_eq h2).symm⟩
 
 /-- dicts and objects: from equal mapping contents to equivalent items or a collision below them -/
 theorem disc_mapping (hlen : ∀ x, (H x).length = 16) (xs ys : List (Scalar × PyVal))
@@ -198,44 +215,60 @@ theorem disc_val (hlen : ∀ x, (H x).length = 16) : ∀ (v : PyVal), Disc H v
       | set j' f' ys =>
         have hff : f = f' := by cases f <;> cases f' <;> simp [kindOf] at hk' <;> rfl
         subst hff
-        obtain ⟨cps, sx, hpx, hsx, e1⟩ := pre_set_inv hp
-        obtain ⟨cqs, sy, hpy, hsy, e2⟩ := pre_set_inv hq
+        obtain ⟨cps, hpx, e1⟩ := pre_set_inv hp
+        obtain ⟨cqs, hpy, e2⟩ := pre_set_inv hq
         simp only [Pre.node.injEq] at e1 e2
         obtain ⟨_, rfl⟩ := e1
         obtain ⟨_, rfl⟩ := e2
         simp only [inG0] at gv gw
-        obtain ⟨mx, px⟩ := sorted_members hpx hsx
-        obtain ⟨my, py⟩ := sorted_members hpy hsy
-        rw [evalPureList_wrap, evalPureList_wrap] at henc
+        rw [evalPureList_setNode, evalPureList_setNode] at henc
         have h1 := List.append_cancel_left henc
         have h2 := List.append_cancel_right h1
-        have nx : ∀ p ∈ sx.map (·.2), ∃ i l, p = Pre.node i l := by
-          intro p hp'
-          obtain ⟨a, ha, rfl⟩ := List.mem_map.mp hp'
-          exact pre_isNode (inG0List_mem gv a.1 (mx a ha).2) (mx a ha).1
-        have ny : ∀ p ∈ sy.map (·.2), ∃ i l, p = Pre.node i l := by
-          intro p hp'
-          obtain ⟨a, ha, rfl⟩ := List.mem_map.mp hp'
-          exact pre_isNode (inG0List_mem gw a.1 (my a ha).2) (my a ha).1
-        have h3 := digests_eq_of_flatten H hlen nx ny h2
-        have := pointwise_disc H hlen sx sy
-          (fun a ha => ⟨(mx a ha).1, inG0List_mem gv a.1 (mx a ha).2, disc_list hlen xs a.1 (mx a ha).2⟩)
-          (fun b hb => ⟨(my b hb).1, inG0List_mem gw b.1 (my b hb).2⟩)
-          (by simpa [List.map_map, Function.comp_def] using h3)
+        have nx := preList_nodes gv hpx
+        have ny := preList_nodes gw hpy
+        -- the sorted digest lists agree, hence the digest multisets agree
+        have len16 : ∀ (ps : List Pre), (∀ p ∈ ps, ∃ i l, p = Pre.node i l) →
+            ∀ d ∈ sortDigests (ps.map (evalPure H)), d.length = 16 := by
+          intro ps hn d hd
+          obtain ⟨p, hp', rfl⟩ := List.mem_map.mp ((sortDigests_perm _).subset hd)
+          exact evalPure_node_length H hlen (hn p hp')
+        have h3 := flatten_inj_of_length 16 (len16 cps nx) (len16 cqs ny) (by omega) h2
+        have hperm : (cps.map (evalPure H)).Perm (cqs.map (evalPure H)) :=
+          (sortDigests_perm _).symm.trans (h3 ▸ sortDigests_perm _)
+        obtain ⟨zx1, zx2, zx3⟩ := zip_preOf hpx
+        obtain ⟨zy1, zy2, zy3⟩ := zip_preOf hpy
+        have hperm' : ((xs.zip cps).map (fun a => evalPure H a.2)).Perm ((ys.zip cqs).map (fun a => evalPure H a.2)) := by
+          have e1 : (xs.zip cps).map (fun a => evalPure H a.2) = ((xs.zip cps).map (·.2)).map (evalPure H) := by
+            simp [List.map_map, Function.comp_def]
+          have e2 : (ys.zip cqs).map (fun a => evalPure H a.2) = ((ys.zip cqs).map (·.2)).map (evalPure H) := by
+            simp [List.map_map, Function.comp_def]
+          rw [e1, e2, zx3, zy3]; exact hperm
+        obtain ⟨bs', pb, eb⟩ := perm_map_lift hperm'
+        have := pointwise_disc H hlen (xs.zip cps) bs'
+          (fun a ha => ⟨zx1 a ha, inG0List_mem gv a.1 (mem_zip_fst ha), disc_list hlen xs a.1 (mem_zip_fst ha)⟩)
+          (fun b hb => ⟨zy1 b (pb.subset hb), inG0List_mem gw b.1 (mem_zip_fst (pb.subset hb))⟩) eb
+        rw [zx2, zx3] at this
         rcases this with hr | hc
         · left
           simp only [Equiv]
-          refine ⟨trivial, ?_⟩
-          obtain ⟨ys', q1, q2⟩ := Rel2.perm_left px hr
-          exact ⟨ys', q1.symm.trans py, (EquivList_iff_Rel2 xs ys').mpr q2⟩
+          refine ⟨trivial, bs'.map (·.1), ?_, (EquivList_iff_Rel2 _ _).mpr hr⟩
+          have := pb.map (·.1)
+          rw [zy2] at this
+          exact this
         · right
           refine Collision.mono H ?_ hc
           intro x hx
-          rw [inputs_wrap, inputs_wrap]
+          rw [inputs_setNode, inputs_setNode]
           simp only [List.mem_append, List.mem_cons] at hx ⊢
           rcases hx with hx | hx
           · left; right; exact hx
-          · right; right; exact hx
+          · right; right
+            -- inputs below a permutation of the element pre-hashes are inputs below the elements
+            refine inputsList_sub_of_mem H ?_ x hx
+            intro p hp'
+            have := (pb.map (·.2)).subset hp'
+            rw [zy3] at this
+            exact this
       | sc b => have := scalarIdx_lt b; cases f <;> simp [kindOf] at hk' <;> omega
       | seq _ k _ => cases f <;> cases k <;> simp [kindOf] at hk'
       | _ => cases f <;> simp [kindOf] at hk'
